@@ -12,6 +12,7 @@ import IndicatifModel.Model.Tab
 import IndicatifModel.Model.Pad
 import IndicatifModel.Model.BarGeo
 import IndicatifModel.Model.Adaptors
+import IndicatifModel.Model.IterWrap
 import IndicatifModel.Model.Estimator
 /-! Line-protocol driver: one case per input line, one model observation per output line. -/
 open IndicatifModel
@@ -439,6 +440,27 @@ def runADAPT (rest : String) : String :=
     | _ => "bad-op"
   | _ => "bad-op"
 
+def parseScript (t : String) : Option (List (Option Nat)) :=
+  if t = "-" then some [] else (t.splitOn ",").mapM (fun x => if x = "_" then some none else x.toNat?.map some)
+
+/-- `ITERW <len|none> <moves 0|1> <pos0> <front script> <back script> <calls n,b,s,...>` -/
+def runITERW (args : List String) : String :=
+  match args with
+  | [len, moves, pos0, front, back, calls] =>
+    let len : Option (Option Nat) := if len = "none" then some none else len.toNat?.map some
+    let cs : Option (List IterWrap.Call) := if calls = "-" then some [] else
+      (calls.splitOn ",").mapM (fun c => if c = "n" then some .next else if c = "b" then some .nextBack else if c = "s" then some .sizeHint else none)
+    match len, pos0.toNat?, parseScript front, parseScript back, cs with
+    | some len, some p, some f, some b, some cs =>
+      let st : Position.St := { pos := p, len := len, finished := false, moves := moves = "1" }
+      " ".intercalate ((IterWrap.trace (f, b) st cs).map (fun (a, s) =>
+        (match a with
+         | .item (some v) => s!"some:{v}"
+         | .item none => "none"
+         | .hint lo hi => s!"hint:{lo}:{match hi with | some h => toString h | none => "none"}") ++ s!"@{s.pos}:{if s.finished then 1 else 0}"))
+    | _, _, _, _, _ => "bad-op"
+  | _ => "bad-op"
+
 def handle (line : String) : String :=
   match line.trimAscii.toString.splitOn " " with
   | "C05" :: rest => runC05 rest
@@ -449,6 +471,7 @@ def handle (line : String) : String :=
   | "ADAPT" :: _ => runADAPT ((line.trimAscii.toString.drop 6).toString)
   | "NOMODEL" :: _ => ""
   | "BARGEO" :: rest => runBARGEO rest
+  | "ITERW" :: rest => runITERW rest
   | "TAB" :: _ => runTAB ((line.trimAscii.toString.drop 3).toString)
   | "FMT" :: rest => runFMT rest
   | "STYLE" :: _ => runSTYLE ((line.trimAscii.toString.drop 6).toString)
